@@ -24,6 +24,13 @@ if t.TYPE_CHECKING:
 
 PYTHON_VERSION_MARKERS = {"python_version", "python_full_version"}
 MARKERS_ALLOWING_SET = {"extras", "dependency_groups"}
+# The variables that are compared as versions (the same as in packaging.markers)
+MARKERS_REQUIRING_VERSION = {
+    "implementation_version",
+    "platform_release",
+    "python_full_version",
+    "python_version",
+}
 Operator = t.Callable[[str, t.Union[str, t.Set[str]]], bool]
 _operators: dict[str, Operator] = {
     "in": lambda lhs, rhs: lhs in rhs,
@@ -212,7 +219,7 @@ class MarkerExpression(SingleMarker):
                 rhs = {normalize_name(v) for v in rhs}
             else:
                 rhs = normalize_name(rhs)
-        if isinstance(rhs, str):
+        if isinstance(rhs, str) and self.name in MARKERS_REQUIRING_VERSION:
             try:
                 op = get_reflect_op(self.op) if self.reversed else self.op
                 spec = Specifier(f"{op}{rhs}")
